@@ -315,6 +315,7 @@ func init() {
 			}
 			modInvokerScenarios(c)
 			modFileOracle(c)
+			modulePrivacyOracle(c)
 			for i := range cases {
 				mc := &cases[i]
 				if mc.Kind != "scope" {
